@@ -23,7 +23,8 @@ func TestMain(m *testing.M) {
 			"Oracle: model map (addr,seq) -> answer bytes; a duplicate inside the window returns a byte-identical datagram (or nothing), causes no data-plane call and leaves the server snapshot unchanged; a request differing in address or sequence number is executed; "+
 			"after ExpireRx the entry is gone, the key is executed again, and after expiring everything the receive-transaction table is empty. "+
 			"non-trivial = (duplicate of a state-changing request and a request from another address with the same sequence number) or (an expiry followed by reuse of the key); distinct by history",
-		"retention-timer expiry is injected through the public NotifyTransTimeout entry point; real timers are configured an hour ahead",
+		"in the model-based histories retention-timer expiry is injected through the public NotifyTransTimeout entry point and real timers are configured an hour ahead; "+
+			"part (b) uses the real window (20-180 ms): histories of answered and never-answered requests (Establishment for an unassociated node or without F-SEID, Association Update / Release, PFD Management), then more than the window of silence, then a Heartbeat Request re-using every earlier (address, sequence number): each must be executed (Heartbeat Response with that number; repeated every 300 ms, 10 s allowed)",
 		"a different request reusing a live (address, sequence) key is not generated: the statement speaks of the request 'received again'")
 	vcore.Main(m)
 }
@@ -52,7 +53,7 @@ type entry struct {
 
 type stats struct {
 	dupState, foreignSameSeq, expireReuse bool
-	dups, firsts, expiries              int
+	dups, firsts, expiries                int
 }
 
 func nodeOf(peer int) int {
@@ -352,10 +353,21 @@ func report(t vcore.Failer, c Case, v *vcore.Violation) {
 func TestC06(t *testing.T) {
 	files, explicit := vcore.ReplayFiles()
 	for _, f := range files {
-		var c Case
-		if err := vcore.LoadReplayCase(f, &c); err != nil {
+		var w struct {
+			Case
+			Window *WCase `json:"window"`
+		}
+		if err := vcore.LoadReplayCase(f, &w); err != nil {
 			t.Fatalf("replay %s: %v", f, err)
 		}
+		if w.Window != nil {
+			v, s := runWindow(*w.Window)
+			accountWindow(*w.Window, s)
+			vcore.E.Class("replayed")
+			vcore.Report(t, v, map[string]any{"window": w.Window})
+			continue
+		}
+		c := w.Case
 		v, s := run(c)
 		account(c, s, false)
 		vcore.E.Class("replayed")
@@ -403,6 +415,21 @@ func TestC06(t *testing.T) {
 	idx := 0
 	rec(nil, &idx)
 	vcore.E.SetExtra("enumerated_histories", fmt.Sprintf("all %d event sequences of length 1..%d over the 12-letter alphabet (striped over %d shard(s); this shard ran %d)", idx, depth, vcore.Cfg.Shards, count))
+
+	// (b) real retention window
+	vcore.Check(t, vcore.N(30, 150), func(rt *rapid.T) {
+		c := genWindow(rt)
+		v, s := runWindow(c)
+		accountWindow(c, s)
+		if v != nil && !vcore.IsKnown(v.Key) {
+			key := v.Key
+			c.Evs = vcore.MinimizeSlice(c.Evs, func(evs []WEv) bool {
+				x, _ := runWindow(WCase{RetransMs: c.RetransMs, MaxRetrans: c.MaxRetrans, Evs: evs})
+				return x != nil && x.Key == key
+			}, 12)
+		}
+		vcore.Report(rt, v, map[string]any{"window": c})
+	})
 
 	// random part
 	kinds := []string{"hb", "assoc", "est", "est", "estbad", "mod", "mod", "modunk", "del", "expire", "expire"}
